@@ -55,7 +55,13 @@ SPEC = {
         "a split (absolute / relative coordinates respectively) without halos; `linear` only with an "
         "authoritative shape (the API requires the lower extent)",
         "swizzle, split and swap are applied to ranks with string ids and integer coordinates (documented "
-        "argument types); unflatten to ranks flattened in `tuple` style (documented restriction)",
+        "argument types); unflatten to ranks flattened in `tuple` style (documented restriction); swizzle (which "
+        "re-derives every fiber's active range from the ranges that contained its coordinates) is not applied "
+        "after a relative-coordinate or halo split, whose coordinates lie outside their partitions' ranges; after "
+        "such a split only flatten/merge steps are generated",
+        "a chain stops after a step whose result is not a canonical tree with private payloads: a split / "
+        "flatten / swap that traverses a U-format rank materialises its absent coordinates, halo copies share "
+        "payload objects between partitions; such results are still judged, but not transformed further",
         "trees are canonical (no explicit default leaves, no empty sub-fibers) except the all-empty tensor; "
         "content of transforms on dirty trees is C09's",
         "project is judged on operands with a non-empty active range and affine maps c -> k*c+d, k != 0; the "
@@ -235,7 +241,9 @@ def _legal_steps(rng, st, first):
     out = []
     n = len(st["ids"])
     plain = [i for i in range(n) if st["kinds"][i] == ("int", 1) and isinstance(st["ids"][i], str)]
-    for i in plain:
+    # after a relative-coordinate split only re-flattening is generated: split / swizzle work from the active
+    # ranges, which such coordinates are (by C08's definition of a partition's range) not inside
+    for i in (plain if st["active_ok"] else []):
         kind = rng.choice(SPLITS)
         p = {"rankid": st["ids"][i]} if rng.random() < 0.4 else {"depth": i}
         if kind == "splitUniform":
@@ -253,12 +261,12 @@ def _legal_steps(rng, st, first):
         elif r < 0.3 and first:
             p["pre"], p["post"] = rng.choice([(1, 0), (0, 1), (1, 2)])
         out.append([kind, p])
-    if n >= 2 and len(plain) == n:
+    if n >= 2 and len(plain) == n and st["active_ok"]:
         perm = list(st["ids"])
         rng.shuffle(perm)
         out.append(["swizzleRanks", {"ids": perm}])
     for i in range(n - 1):
-        if i in plain and i + 1 in plain:
+        if i in plain and i + 1 in plain and st["active_ok"]:
             out.append(["swapRanks", {"depth": i}])
     for i in range(n - 1):
         levels = rng.randint(1, n - 1 - i)
@@ -278,7 +286,7 @@ def _legal_steps(rng, st, first):
             op = "mergeRanks" if rng.random() < 0.25 else "flattenRanks"
             out.append([op, {"depth": i, "levels": levels, "style": rng.choice(styles)}])
     for i in range(n):
-        if st["kinds"][i][0] == "tuple":
+        if st["kinds"][i][0] == "tuple" and st["active_ok"]:
             out.append(["unflattenRanks", {"depth": i, "levels": rng.randint(1, st["kinds"][i][1] - 1)}])
     return out
 
@@ -785,7 +793,7 @@ def _run_xform(case, mon):
             if good:                # containment is judged against a shape already known to be right
                 good = _check_tensor_fibers(mon, key, t2, st2, roles)
             after = (t.getRankIds(), t.getShape(authoritative=True), unbox(t.getDefault()), t.isMutable())
-            mon.check(before == after, f"{key}:operand-attributes-changed",
+            mon.check(before == after, f"{op}:operand-attributes-changed",
                       f"{key}: operand attributes were {before!r}, now {after!r}")
         except _Raised:
             good = False
